@@ -741,6 +741,81 @@ theorem members_active {bi : Nat} (hb : bi < I.nB) {t : Nat} (ht : t ∈ (I.batc
   simp only [BInst.profTasks, List.mem_filter, Bool.and_eq_true, decide_eq_true_eq] at this
   exact ⟨this.2.1.1, this.2.1.2⟩
 
+/-! ### Capacity at every instant of the row horizon -/
+
+/-- Demand of batch `bi` on worker `w` at the instant `τ` (half-open occupancy
+`[start, start + runtime)`), once per batch. -/
+def BInst.contribAt (I : BInst) (σ : BVar → Int) (bi w : Nat) (τ : Int) (r : String) : Nat :=
+  match I.chosen σ bi with
+  | some q => if q.1 = w ∧ I.slot q.2 ≤ τ ∧ τ < I.slot q.2 + ((I.batch bi).strat.runtime : Nat) then I.req bi r else 0
+  | none => 0
+
+/-- Demand of a RUNNING batch at the instant `τ`: `[now, now + full runtime)`. -/
+def BInst.runDemandAt (I : BInst) (bi w : Nat) (τ : Int) (r : String) : Nat :=
+  if I.bPrevW (I.batch bi) = w ∧ I.now ≤ τ ∧ τ < I.now + ((I.batch bi).strat.runtime : Nat) then I.req bi r else 0
+
+/-- Load of the decoded plan and the RUNNING batches at the instant `τ`, a batch counted once. -/
+def BInst.loadAt (I : BInst) (σ : BVar → Int) (w : Nat) (τ : Int) (r : String) : Nat :=
+  nsum (I.free.map (fun bi => I.contribAt σ bi w τ r)) + nsum (I.runningB.map (fun bi => I.runDemandAt bi w τ r))
+
+theorem covers_of_instant {bi k' k : Nat} {τ : Int} (hd : 1 ≤ I.disc) (h1 : I.slot k ≤ τ)
+    (h2 : τ < I.slot k + (I.disc : Nat)) (h3 : I.slot k' ≤ τ)
+    (h4 : τ < I.slot k' + ((I.batch bi).strat.runtime : Nat)) : I.covers bi k' k = true := by
+  simp only [BInst.slot] at h1 h2 h3 h4
+  have hk : k' ≤ k := by
+    by_cases hle : k' ≤ k
+    · exact hle
+    · exfalso
+      have : (k + 1) * I.disc ≤ k' * I.disc := Nat.mul_le_mul_right _ (by omega)
+      have e : (k + 1) * I.disc = k * I.disc + I.disc := by rw [Nat.add_mul, Nat.one_mul]
+      generalize k * I.disc = a at *
+      generalize k' * I.disc = b at *
+      omega
+  simp only [BInst.covers, Bool.and_eq_true, decide_eq_true_eq]
+  refine ⟨hk, ?_⟩
+  generalize k * I.disc = a at *
+  generalize k' * I.disc = b at *
+  omega
+
+theorem contribAt_le {bi w k : Nat} {τ : Int} {r : String} (hd : 1 ≤ I.disc) (h1 : I.slot k ≤ τ)
+    (h2 : τ < I.slot k + (I.disc : Nat)) : I.contribAt σ bi w τ r ≤ I.contrib σ bi w k r := by
+  unfold BInst.contribAt BInst.contrib
+  cases hc : I.chosen σ bi with
+  | none => simp
+  | some q =>
+    simp only
+    by_cases hcond : q.1 = w ∧ I.slot q.2 ≤ τ ∧ τ < I.slot q.2 + ((I.batch bi).strat.runtime : Nat)
+    · rw [if_pos hcond, if_pos ⟨hcond.1, covers_of_instant hd h1 h2 hcond.2.1 hcond.2.2⟩]
+      exact Nat.le_refl _
+    · rw [if_neg hcond]
+      exact Nat.zero_le _
+
+theorem runDemandAt_le {bi w k : Nat} {τ : Int} {r : String} (hd : 1 ≤ I.disc) (h1 : I.slot k ≤ τ)
+    (h2 : τ < I.slot k + (I.disc : Nat)) : I.runDemandAt bi w τ r ≤ I.runDemand bi w k r := by
+  unfold BInst.runDemandAt BInst.runDemand
+  by_cases hcond : I.bPrevW (I.batch bi) = w ∧ I.now ≤ τ ∧ τ < I.now + ((I.batch bi).strat.runtime : Nat)
+  · have h0 : I.slot 0 = I.now := by simp [BInst.slot]
+    rw [if_pos hcond, if_pos ⟨hcond.1, covers_of_instant hd h1 h2 (by rw [h0]; exact hcond.2.1) (by rw [h0]; exact hcond.2.2)⟩]
+    exact Nat.le_refl _
+  · rw [if_neg hcond]
+    exact Nat.zero_le _
+
+theorem wf_disc (hwf : I.wf = true) : 1 ≤ I.disc := by
+  simp only [BInst.wf, BInst.wfGrid, Bool.and_eq_true, decide_eq_true_eq] at hwf
+  exact hwf.1.1.2.1.1.1.1.1.1
+
+/-- The load at an instant of the slot interval `[slot k, slot k + disc)` is bounded by the load
+at slot `k` (all starts lie on the grid). -/
+theorem loadAt_le (hwf : I.wf = true) {w k : Nat} {τ : Int} {r : String} (h1 : I.slot k ≤ τ)
+    (h2 : τ < I.slot k + (I.disc : Nat)) : I.loadAt σ w τ r ≤ I.batchLoad σ w k r := by
+  have hd := wf_disc hwf
+  unfold BInst.loadAt BInst.batchLoad BInst.freeLoad BInst.runningLoad
+  have a := nsum_map_le I.free (fun bi => I.contribAt σ bi w τ r) (fun bi => I.contrib σ bi w k r)
+    (fun bi _ => contribAt_le hd h1 h2)
+  have b := nsum_map_le I.runningB (fun bi => I.runDemandAt bi w τ r) (fun bi => I.runDemand bi w k r)
+    (fun bi _ => runDemandAt_le hd h1 h2)
+  omega
+
 theorem eq_of_nodup_map {α β : Type} (f : α → β) {l : List α} (h : (l.map f).Nodup) {a b : α}
     (ha : a ∈ l) (hb : b ∈ l) (hab : f a = f b) : a = b := by
   induction l with
